@@ -214,3 +214,36 @@ def field_validator_report(run_label: str = f"{PY_REL}::_generate_field_validato
 
     rep = _vc.generate_post(world, interp, fi, [("type_def", [("obj", "TypeDef")]), ("optional", ["bool"])], pre, post, run_label)
     return world, rep
+
+
+def rust_extras_item():
+    """generate_extras (rust): the cfg(feature = "proposed") gate is emitted iff the element is proposed; #[deprecated] iff deprecated."""
+    from pyvc.symex import VList, VStr as _VStr, VTuple
+
+    world = new_world()
+    interp = Interp(world)
+    world.classes["Annotated"] = ClassInfo("Annotated", {"deprecated": FieldSpec(["none", "str"]), "proposed": FieldSpec(["none", "bool"]), "since": FieldSpec(["none", "str"]), "documentation": FieldSpec(["none", "str"])}, {})
+    load_module(world, interp, os.path.join(REPO, RUST_REL), "mod", RUST_REL)
+    fi = world.functions.get(f"{RUST_REL}::generate_extras")
+    GATE = smt.sstr('#[cfg(feature = "proposed")]')
+    DEP = smt.sstr("#[deprecated]")
+
+    def post(c, a, impl):
+        if impl[0] != "return":
+            return FALSE
+        r = force(c, impl[1])
+        if not isinstance(r, (VList, VTuple)):
+            return FALSE
+        items = [force(c, x) for x in r.items]
+        if not all(isinstance(x, _VStr) for x in items):
+            return FALSE
+        has_gate = Or(*[Eq(x.t, GATE) for x in items])
+        has_dep = Or(*[Eq(x.t, DEP) for x in items])
+        prop = interp.truth_term(c, interp.getattr(c, a["type_def"], "proposed"))
+        dep = interp.truth_term(c, interp.getattr(c, a["type_def"], "deprecated"))
+        return And(Eq(has_gate, prop), Eq(has_dep, dep))
+
+    if fi is None:
+        return world, None
+    rep = _vc.generate_post(world, interp, fi, [("type_def", [("obj", "Annotated")])], lambda c, a: TRUE, post, f"{RUST_REL}::generate_extras")
+    return world, rep
